@@ -192,6 +192,9 @@ func (w *World) noteAction(cs *connState, a gnet.Action) {
 	case gnet.Close:
 		cs.localReq = true
 	case gnet.Shutdown:
+		if w.clientAction(cs) {
+			return
+		}
 		w.otherShutdown = true
 		if !w.stopRequested {
 			w.stopRequested = true
@@ -199,6 +202,19 @@ func (w *World) noteAction(cs *connState, a gnet.Action) {
 		}
 		w.markLocalAll()
 	}
+}
+
+// clientAction: a Shutdown action returned by a callback of a gnet.Client makes
+// that connection's event loop exit (closing its connections); the client as
+// a whole stops with Client.Stop, which the world still has to call.
+func (w *World) clientAction(cs *connState) bool {
+	if !w.p.Cfg.Client {
+		return false
+	}
+	w.probes["client-shutdown-action"]++
+	w.logf("shutdown action from conn %d (client: its loop exits)", cs.idx)
+	w.markLocalAll()
+	return true
 }
 
 func (h *handler) OnClose(c gnet.Conn, err error) (action gnet.Action) {
@@ -224,6 +240,9 @@ func (h *handler) OnClose(c gnet.Conn, err error) (action gnet.Action) {
 		}
 		if err == nil && !cs.localReq && !w.stopRequested && !w.stopEverAsked {
 			w.violate("C04", "close-nil-without-local-cause", "conn %d (udp client): OnClose reported a nil error but no local close had been requested (ICMP error pending on the socket: %v)", cs.idx, w.peers[cs.idx].udpUnreach)
+		}
+		if gnet.Action(cs.cp.CloseAct) == gnet.Shutdown {
+			w.clientAction(cs)
 		}
 		return gnet.Action(cs.cp.CloseAct)
 	}
@@ -269,6 +288,9 @@ func (h *handler) OnClose(c gnet.Conn, err error) (action gnet.Action) {
 		w.probes["used-conn-inside-onclose"]++
 	}
 	action = gnet.Action(cs.cp.CloseAct)
+	if action == gnet.Shutdown && w.clientAction(cs) {
+		return
+	}
 	if action == gnet.Shutdown {
 		if w.inCall[task] > 0 {
 			// OnClose runs nested inside the handler's own call (EventLoop.Close,
